@@ -9,6 +9,7 @@ package eval
 
 import (
 	"github.com/algorand/go-algorand/data/basics"
+	"github.com/algorand/go-algorand/data/transactions"
 	"github.com/algorand/go-algorand/ledger/ledgercore"
 )
 
@@ -44,4 +45,18 @@ func (eval *BlockEvaluator) VerifLcoreRewardsLevel() uint64 { return eval.state.
 // VerifLcoreSpecials returns the fee sink and rewards pool of the block being evaluated.
 func (eval *BlockEvaluator) VerifLcoreSpecials() (basics.Address, basics.Address) {
 	return eval.block.FeeSink, eval.block.RewardsPool
+}
+
+// VerifLcoreSpace returns the evaluator's block-space accounting: bytes charged so far and the limit.
+func (eval *BlockEvaluator) VerifLcoreSpace() (int, int) {
+	return eval.blockTxBytes, eval.maxTxnBytesPerBlock
+}
+
+// VerifLcoreEncodedLen is the encoded length of the SignedTxnInBlock this block would hold for (stxn, ad).
+func (eval *BlockEvaluator) VerifLcoreEncodedLen(stxn transactions.SignedTxn, ad transactions.ApplyData) int {
+	txib, err := eval.block.EncodeSignedTxn(stxn, ad)
+	if err != nil {
+		return -1
+	}
+	return txib.GetEncodedLength()
 }
